@@ -87,7 +87,8 @@ func init() {
 // ---------------------------------------------------------------------------
 // C12 (H): the table the routing uses must be the one the cluster reports, for every way a node can be listed.
 //
-// history   two masters with two slot groups each; one of: (a) the other nodes list m1 as suspected ("fail?", it
+// history   two masters with two slot groups each; one of: (0) m1 runs with the no-failover option and is listed with
+//           that flag; (a) the other nodes list m1 as suspected ("fail?", it
 //           is alive and owns its slots) from the start; (b) m1 comes back on another address with the same node
 //           id, then the periodic refresh; (c) m1 is listed suspected after the proxy learned the layout, then the
 //           periodic refresh - under both rotations of the refresh's host pick; then every key is read and written
@@ -100,11 +101,14 @@ func c12reportedTableBody() {
 	if sched.Choose(sched.ClsInput, 2, "rotation of the random host picks") == 1 {
 		vrand.Intn(2)
 	}
-	hist := []string{"suspected-from-start", "owner-changes-address", "suspected-later"}[sched.Choose(sched.ClsInput, 3, "history")]
+	hist := []string{"suspected-from-start", "owner-changes-address", "suspected-later", "listed-with-nofailover"}[sched.Choose(sched.ClsInput, 4, "history")]
 	cl := cluster.New(2, 0, 4)
 	m0, m1 := cl.Masters()[0], cl.Masters()[1]
 	if hist == "suspected-from-start" {
 		m1.Suspected = true
+	}
+	if hist == "listed-with-nofailover" {
+		m1.ExtraFlags = "nofailover"
 	}
 	s := vfStartStack(cl, vfSvcConfig(0, nil, 0))
 	c := s.NewClient("c0")
